@@ -8,6 +8,7 @@ extern crate tracing;
 mod acpfx;
 mod bkp;
 mod checks;
+mod edge;
 mod fixtures;
 #[allow(dead_code)]
 mod idmfx;
